@@ -20,6 +20,8 @@ type TreeFile struct {
 	Dir  string   `json:"dir"`
 	Name string   `json:"name"`
 	Spec FileSpec `json:"spec"`
+	// Link: the file lives under <base>/../linked/ and Dir/Name is a symbolic link to it
+	Link bool `json:"link,omitempty"`
 }
 
 type C10Case struct {
@@ -34,7 +36,20 @@ type C10Case struct {
 }
 
 func buildTree(base string, files []TreeFile, now int64) error {
-	for _, f := range files {
+	for i, f := range files {
+		if f.Link {
+			target := filepath.Join(filepath.Dir(base), "linked-"+filepath.Base(base), fmt.Sprintf("t%d.wsp", i))
+			if err := buildFile(target, f.Spec, now); err != nil {
+				return err
+			}
+			if err := os.MkdirAll(filepath.Join(base, f.Dir), 0755); err != nil {
+				return err
+			}
+			if err := os.Symlink(target, filepath.Join(base, f.Dir, f.Name)); err != nil {
+				return err
+			}
+			continue
+		}
 		if err := buildFile(filepath.Join(base, f.Dir, f.Name), f.Spec, now); err != nil {
 			return err
 		}
@@ -179,9 +194,30 @@ func compareSeriesRecords(got map[int][]rawPoint, want []*Series) string {
 	return ""
 }
 
+// compareSeriesRecordsExact is compareSeriesRecords with bit-exact values (order-sensitive sums).
+func compareSeriesRecordsExact(got map[int][]rawPoint, want []*Series) string {
+	for a, s := range want {
+		g := got[a]
+		n := 0
+		if s != nil {
+			n = len(s.Values)
+		}
+		if len(g) != n {
+			return fmt.Sprintf("archive %d: %d point records, expected %d", a, len(g), n)
+		}
+		for i := 0; i < n; i++ {
+			if g[i].T != s.From+int64(i)*s.Step || !sameF(g[i].V, s.Values[i]) {
+				return fmt.Sprintf("archive %d record %d: got (t=%d, %s), expected (t=%d, %s)", a, i, g[i].T, fstr(g[i].V), s.From+int64(i)*s.Step, fstr(s.Values[i]))
+			}
+		}
+	}
+	return ""
+}
+
 func layoutMap(base string, files []TreeFile) map[string]Layout {
 	m := map[string]Layout{}
 	for _, f := range files {
+		// (a symbolic link is listed under the name the glob returns)
 		m[filepath.Join(base, f.Dir, f.Name)] = f.Spec.L
 	}
 	return m
@@ -340,10 +376,13 @@ func genTree(t *rapid.T, l Layout, now int64, allowMismatch bool) []TreeFile {
 		}
 		for i := 0; i < nf; i++ {
 			fl := l
-			if allowMismatch && rapid.IntRange(0, 29).Draw(t, "mismatch") == 0 {
+			if allowMismatch && rapid.IntRange(0, 19).Draw(t, "mismatch") == 0 {
 				fl = genCLILayout(t)
+				if rapid.Bool().Draw(t, "subtle") {
+					fl = subtleLayoutVariant(l)
+				}
 			}
-			files = append(files, TreeFile{Dir: d, Name: fmt.Sprintf("f%d.wsp", i+1), Spec: FileSpec{L: fl, Writes: genWrites(t, fl, now, valDyadic, 15)}})
+			files = append(files, TreeFile{Dir: d, Name: fmt.Sprintf("f%d.wsp", i+1), Spec: FileSpec{L: fl, Writes: genWrites(t, fl, now, valDyadic, 15)}, Link: rapid.IntRange(0, 9).Draw(t, "symlink") == 0})
 		}
 	}
 	return files
@@ -398,8 +437,9 @@ func genC10(t *rapid.T) C10Case {
 
 func TestC10(t *testing.T) {
 	RunProperty(t, Property[C10Case]{
-		ID: "C10",
-		Rule: "rapid-generated trees base/<1-3 item directories, nested up to 3 levels>/<1-6 files> of one layout (1 file in 30 gets another layout), exactly summable values (multiples of 1/8) with 15% NaN writes and sparse archives so holes differ per file; item patterns and file patterns incl. ones matching nothing; windows / archive selection as in C08; header on/off; run at a controlled clock. Oracle: per selected item, an independent slot-wise sum over the files a shell glob selects (value iff some file has one), compared with the parsed point records; layout mismatch => error that is neither not-exist nor diff-found; nothing matched => os.IsNotExist error. Non-trivial: an item with >=2 files and a slot where some but not all files have a value. Distinct = hash of the case.",
+		NoteCases:   true,
+		ID:          "C10",
+		Rule:        "rapid-generated trees base/<1-3 item directories, nested up to 3 levels>/<1-6 files> of one layout (1 file in 30 gets another layout), exactly summable values (multiples of 1/8) with 15% NaN writes and sparse archives so holes differ per file; item patterns and file patterns incl. ones matching nothing; windows / archive selection as in C08; header on/off; run at a controlled clock. Oracle: per selected item, an independent slot-wise sum over the files a shell glob selects (value iff some file has one), compared with the parsed point records; layout mismatch => error that is neither not-exist nor diff-found; nothing matched => os.IsNotExist error. Non-trivial: an item with >=2 files and a slot where some but not all files have a value. Distinct = hash of the case.",
 		Assumptions: []string{"values are exactly summable so the summation order does not matter", "directory names contain no dots (Z8)"},
 		Gen:         genC10,
 		Run:         runC10,
